@@ -2223,6 +2223,11 @@ impl<'a, W: Write + 'a> Serializer<'a, W> {
                     }; //Savefile always serializes most recent version. Only savefile-abi ever writes old formats.
                     data.serialize(&mut serializer)?;
                     compressed_writer.flush()?;
+                    // Finish the bzip2 stream explicitly. Otherwise the end-of-stream trailer is written
+                    // by the Drop of BzEncoder, which ignores write errors (the save would be reported
+                    // as successful although the output is incomplete).
+                    let writer = compressed_writer.finish()?;
+                    writer.flush()?;
                     return Ok(());
                 }
                 #[cfg(not(feature = "bzip2"))]
